@@ -7,6 +7,7 @@ mod lattice;
 mod limits;
 mod oracle;
 mod robots;
+mod solver;
 mod stack;
 mod util;
 
@@ -23,6 +24,8 @@ fn main() {
         ("replay", "chain") => chain::replay(&args[3], &args[4]),
         ("record", "fk") => chain::record(&args[3]),
         ("replay", "stack") => stack::replay(&args[3], &args[4]),
+        ("record", "ik") => solver::record(&args[3], &args[4]),
+        ("record", "follow") => solver::record_follow(&args[3]),
         _ => {
             eprintln!("unknown command {:?}", &args[1..]);
             std::process::exit(2);
